@@ -248,6 +248,10 @@ def corpus():
         # a fresh container is move-assigned into the one the threads have been using (internal_swap: key, table and elements travel together);
         # threads that used it before, the mover itself and new threads access it afterwards; again after a clear
         scs.append({"kind": k, "threads": 4, "phases": [LK(0, 1), ("X", 2), LK(0), LK(1, 3), ("X", 0), LK(0, (1, 2)), ("C", 1), LK(2), ("X", 2), LK(2, 0, 3)]})
+        # copies taken when the table has three arrays and some threads have re-accessed since the last growth while others have not (their key
+        # lives only in an older array; the others have stale duplicates there)
+        scs.append({"kind": k, "threads": 7, "phases": [LK(0, 1, 2, 3, 4), LK(2, 0), ("Y", 5), LK(5, 6), LK(1, 5), ("Y", 0), ("C", 3), LK(0, 1, 2, 3, 4, 5), LK(4), ("Y", 6)]})
+        scs.append({"kind": k, "threads": 9, "phases": [LK(*range(9)), LK(8, 3), ("Y", 0), LK(0, 1), ("Y", 4)]})
         # the table doubles in one generation and starts again from nothing in the next
         scs.append({"kind": k, "threads": 9, "phases": [LK(*range(9)), ("C", 4), LK(*[(t, 2) for t in range(9)]), ("R", 8), LK(0, 8)]})
     # a thread that outlives MANY generations (more than PTHREAD_KEYS_MAX of them for the native-TLS kind)
